@@ -35,7 +35,8 @@ def iso_table():
 
 
 def run(job):
-    from quantity import (UndefinedResultError, UnitConversionError, Unit)
+    from quantity import (Quantity, UndefinedResultError, UnitConversionError,
+                          Unit)
     from quantity.money import Money, Currency, get_currency_info
     quick = job.tier != "thorough"
     table = iso_table()
@@ -85,6 +86,10 @@ def run(job):
                              ("div", lambda: x / y), ("lt", lambda: x < y),
                              ("ge", lambda: x >= y),
                              ("convert", lambda: x.convert(cb)),
+                             ("parse-with-other-currency",
+                              lambda: Money(f"{a} {ca.symbol}", cb)),
+                             ("generic-parse-with-other-currency",
+                              lambda: Quantity(f"{a} {ca.symbol}", cb)),
                              ("unit-div", lambda: ca / cb)):
                 try:
                     r = fn()
